@@ -45,6 +45,7 @@ def build():
     A(Op("dp", lambda x, a: x.spec.dp(), circ=True, exact=True, rot="shift"))
     A(Op("dpm", lambda x, a: x.spec.dpm(), circ=True, min_nf=3, peak=True, rot="shift"))
     A(Op("dpspr", lambda x, a: x.spec.dpspr(), min_nf=3, peak=True))
+    A(Op("dpspr_mom2", lambda x, a: x.spec.dpspr(mom=2), min_nf=3, peak=True))
     A(Op("alpha", lambda x, a: x.spec.alpha(), needs_dir=False, min_nf=3, peak=True, scale="lin"))
     A(Op("gamma", lambda x, a: x.spec.gamma(), needs_dir=False, min_nf=3, peak=True))
     A(Op("stats", lambda x, a: x.spec.stats(["hs", "tm01", "tm02"]), scale="skip"))
